@@ -1,11 +1,11 @@
-\* one device type x 3 minors (totals 0 / 100), 2 pods, requests 50 / 100 percent of 1..2 devices; complete state space
+\* one device type x 2 minors, 3 pods, requests 25 / 50 / 100 percent of 1..2 devices; complete state space
 SPECIFICATION MSpec
 CONSTANTS
-  Types = {"gpu"}
-  Minors = {0, 1, 2}
-  Pods = {"p0", "p1"}
+  Types = {"rdma"}
+  Minors = {0, 1}
+  Pods = {"p0", "p1", "p2"}
   MaxCnt = 2
-  Amounts = {50, 100}
+  Amounts = {25, 50, 100}
   DupCheck = TRUE
   KnownCheck = TRUE
   ResetFree = TRUE
